@@ -139,7 +139,8 @@ def sweep(st, pattern, spans):
 
 def old_dates(tier):
     out = []
-    years = range(2001, 2100) if tier == "thorough" else range(2001, 2030)
+    # quick: the first three decades plus the years around 2038, the middle of the century and the POSIX two-digit-year pivot (68/69)
+    years = range(2001, 2100) if tier == "thorough" else list(range(2001, 2030)) + [2038, 2050, 2068, 2069, 2070, 2099]
     for y in years:
         for k in range(-7, 7):
             out.append(dt.date(y, 1, 1) + dt.timedelta(days=k))
